@@ -5,8 +5,8 @@
    warp2 = FlowFields.exp as specified / as coded / FlowFields.warp_image (Model/FlowRepr.v on Model/Flow.v, Model/Sampler.v). *)
 From Coq Require Import ZArith QArith Qcanon List Lia.
 From DV Require Import Base.Field Base.FieldFacts Base.LinAlg Base.QcInst Model.Enums Model.Homog Model.Grid Model.Sampler
-  Model.SamplerQc Model.Flow Model.FlowQc Model.FlowRepr Gen.GridT Gen.FlowFields Proofs.C11Interp Proofs.C11Compose Proofs.C11Expv
-  Proofs.C13Compose Proofs.C10Axes Proofs.C10Conv Proofs.C10Repr Proofs.C10Conv3 Proofs.C10Sample Proofs.C10SampleLin Proofs.C10SampleLin3 Proofs.C10Spec.
+  Model.SamplerQc Model.Flow Model.FlowQc Model.FlowRepr Gen.GridT Gen.FlowFields Gen.PointsetNorm Proofs.C11Interp Proofs.C11Compose Proofs.C11Expv
+  Proofs.C13Compose Proofs.C10Axes Proofs.C10Conv Proofs.C10Repr Proofs.C10Conv3 Proofs.C10Sample Proofs.C10SampleLin Proofs.C10SampleLin3 Proofs.C10Spec Proofs.C10Norm.
 Import ListNotations.
 
 Section Statements.
@@ -173,6 +173,38 @@ Theorem C10_flowfields_glue_is_model :
   gen_ff_warp_ac A = axes_ac A /\ gen_ff_warp_coords_ac A = axes_ac A /\ gen_ff_warp_cube A = cube_of (axes_ac A) /\
   gen_ff_sample_rescales A = true.
 Proof. intros []; repeat split; reflexivity. Qed.
+
+(* 11. the normalise / denormalise helpers (core/pointset.py normalize_grid, denormalize_grid; core/flow.py normalize_flow,
+       denormalize_flow; traced per axis, Gen/PointsetNorm.v) are the grid's own GRID <-> CUBE / CUBE_CORNERS point and vector
+       maps for both flags, D in {2,3}, every well-formed grid; they are mutually inverse; sample index i is normalised to the
+       coordinate Grid.coords reports for it *)
+Theorem C10_normalize_helpers_are_grid_maps :
+  forall ac (n s c : nat -> K) (d : nat -> nat -> K) (x0 x1 x2 : K),
+  (wf 2 n s d ->
+   gpts 2 GRID (cube_of ac) (n, s, c, d) [x0; x1] = [gen_normalize_grid ac (n 0%nat) x0; gen_normalize_grid ac (n 1%nat) x1] /\
+   gpts 2 (cube_of ac) GRID (n, s, c, d) [x0; x1] = [gen_denormalize_grid ac (n 0%nat) x0; gen_denormalize_grid ac (n 1%nat) x1] /\
+   gvecs 2 GRID (cube_of ac) (n, s, c, d) [x0; x1] = [gen_normalize_flow ac (n 0%nat) x0; gen_normalize_flow ac (n 1%nat) x1] /\
+   gvecs 2 (cube_of ac) GRID (n, s, c, d) [x0; x1] = [gen_denormalize_flow ac (n 0%nat) x0; gen_denormalize_flow ac (n 1%nat) x1]) /\
+  (wf 3 n s d ->
+   gpts 3 GRID (cube_of ac) (n, s, c, d) [x0; x1; x2]
+     = [gen_normalize_grid ac (n 0%nat) x0; gen_normalize_grid ac (n 1%nat) x1; gen_normalize_grid ac (n 2%nat) x2] /\
+   gpts 3 (cube_of ac) GRID (n, s, c, d) [x0; x1; x2]
+     = [gen_denormalize_grid ac (n 0%nat) x0; gen_denormalize_grid ac (n 1%nat) x1; gen_denormalize_grid ac (n 2%nat) x2] /\
+   gvecs 3 GRID (cube_of ac) (n, s, c, d) [x0; x1; x2]
+     = [gen_normalize_flow ac (n 0%nat) x0; gen_normalize_flow ac (n 1%nat) x1; gen_normalize_flow ac (n 2%nat) x2] /\
+   gvecs 3 (cube_of ac) GRID (n, s, c, d) [x0; x1; x2]
+     = [gen_denormalize_flow ac (n 0%nat) x0; gen_denormalize_flow ac (n 1%nat) x1; gen_denormalize_flow ac (n 2%nat) x2]).
+Proof.
+  intros. split; intro Hw; [now apply (normalize_is_grid_map2 K Kf Kc) | now apply (normalize_is_grid_map3 K Kf Kc)].
+Qed.
+Theorem C10_normalize_helpers_inverse :
+  forall ac (n x : K), n <> 0 -> n - 1 <> 0 ->
+  gen_denormalize_grid ac n (gen_normalize_grid ac n x) = x /\ gen_normalize_grid ac n (gen_denormalize_grid ac n x) = x /\
+  gen_denormalize_flow ac n (gen_normalize_flow ac n x) = x /\ gen_normalize_flow ac n (gen_denormalize_flow ac n x) = x.
+Proof. exact (norm_denorm K Kf Kc). Qed.
+Theorem C10_normalize_grid_is_coords :
+  forall ac (n : Z) (p : K), (2 <= n)%Z -> gen_normalize_grid ac (of_Z n) p = ncoordK ac n p.
+Proof. exact (normalize_grid_is_coords K Kf Kc). Qed.
 End Statements.
 
 Print Assumptions C10_axes_roundtrip.
@@ -195,6 +227,9 @@ Print Assumptions C10_sample_commutes_with_axes_2d.
 Print Assumptions C10_sample_commutes_with_axes_3d.
 Print Assumptions C10_transform_vectors_closed_forms.
 Print Assumptions C10_flowfields_glue_is_model.
+Print Assumptions C10_normalize_helpers_are_grid_maps.
+Print Assumptions C10_normalize_helpers_inverse.
+Print Assumptions C10_normalize_grid_is_coords.
 
 (* regression witness: the variant that exponentiates the UNCONVERTED tensor (the defect repaired in /repo 245f8d5) is
    told apart from the specification -- WORLD axes on a 3 x 2 anisotropic rotated grid *)
